@@ -157,6 +157,30 @@ impl<'ast> Visit<'ast> for BodyVisitor {
         }
         visit::visit_expr_method_call(self, e);
     }
+    fn visit_expr_if(&mut self, e: &'ast syn::ExprIf) {
+        // `if let Entry::Occupied(mut X) = M.entry(K) { .. }` with M and K plain identifiers (rule R24)
+        if let syn::Expr::Let(l) = &*e.cond {
+            if let (syn::Pat::TupleStruct(ts), syn::Expr::MethodCall(mc)) = (&*l.pat, &*l.expr) {
+                let segs: Vec<String> = ts.path.segments.iter().map(|s| s.ident.to_string()).collect();
+                let is_occ = segs.len() >= 2 && segs[segs.len() - 1] == "Occupied" && segs[segs.len() - 2] == "Entry" && ts.elems.len() == 1;
+                if is_occ && mc.method == "entry" && mc.args.len() == 1 {
+                    let var = match &ts.elems[0] { syn::Pat::Ident(pi) if pi.by_ref.is_none() && pi.subpat.is_none() => Some(pi.ident.to_string()), _ => None };
+                    let m = match &*mc.receiver { syn::Expr::Path(p) => p.path.get_ident().map(|i| i.to_string()), _ => None };
+                    let k = match &mc.args[0] { syn::Expr::Path(p) => p.path.get_ident().map(|i| i.to_string()), _ => None };
+                    if let (Some(var), Some(m), Some(k)) = (var, m, k) {
+                        let mut u = EntryUses { var: var.clone(), calls: vec![], other: 0 };
+                        u.visit_block(&e.then_branch);
+                        self.nodes.push(json!({
+                            "kind": "occupied_entry", "range": rng(e.span()), "cond": rng(e.cond.span()),
+                            "then": rng(e.then_branch.span()), "var": var, "map": m, "key": k,
+                            "calls": u.calls, "other_uses": u.other, "in_closure": self.closure_depth > 0,
+                        }));
+                    }
+                }
+            }
+        }
+        visit::visit_expr_if(self, e);
+    }
     fn visit_expr_closure(&mut self, c: &'ast syn::ExprClosure) {
         self.nodes.push(json!({"kind": "closure", "range": rng(c.span())}));
         self.closure_depth += 1;
@@ -260,6 +284,36 @@ impl<'ast> Visit<'ast> for BodyVisitor {
     }
 }
 
+/// uses of the entry variable of an `if let Entry::Occupied(mut X) = ..` inside its block
+struct EntryUses {
+    var: String,
+    calls: Vec<Value>,
+    other: usize,
+}
+impl<'ast> Visit<'ast> for EntryUses {
+    fn visit_expr_method_call(&mut self, e: &'ast syn::ExprMethodCall) {
+        if let syn::Expr::Path(p) = &*e.receiver {
+            if p.path.is_ident(&self.var) && e.args.is_empty() {
+                let m = e.method.to_string();
+                if m == "get_mut" || m == "get" || m == "remove" {
+                    self.calls.push(json!({"method": m, "range": rng(e.span())}));
+                    return;
+                }
+            }
+        }
+        visit::visit_expr_method_call(self, e);
+    }
+    fn visit_path(&mut self, p: &'ast syn::Path) {
+        if p.is_ident(&self.var) {
+            self.other += 1;
+        }
+    }
+    fn visit_macro(&mut self, m: &'ast syn::Macro) {
+        if m.tokens.to_string().split(|c: char| !c.is_alphanumeric() && c != '_').any(|t| t == self.var) {
+            self.other += 1;
+        }
+    }
+}
 struct CtrlFinder {
     found: bool,
 }
